@@ -1004,9 +1004,16 @@ class OffsetMap:
             - delta is the difference between the requested offset and stored offset
               Note: delta can be negative, e.g., when computing slot(a[n-1]) which is `(keccak(slot(a)) - 1) + n`
         """
-        (value, offset) = self._map.get(key >> self._offset_bits, (None, None))
+        raw_key = key >> self._offset_bits
+        (value, offset) = self._map.get(raw_key, (None, None))
         if value is None:
-            return (None, None)
+            # the base may lie in the bucket below: key = base + delta with delta < 2**offset_bits crossing the boundary
+            if raw_key == 0:
+                return (None, None)
+            (value, offset) = self._map.get(raw_key - 1, (None, None))
+            if value is None:
+                return (None, None)
+            return (value, (key & self._mask) + (1 << self._offset_bits) - offset)
         delta = (key & self._mask) - offset
         return (value, delta)
 
